@@ -28,6 +28,8 @@ def gate_exprs():
         for b in itertools.product((0, 1), repeat=n):
             out += ["Ket(%s)" % ", ".join(map(str, b)), "Bra(%s)" % ", ".join(map(str, b))]
     out += ["scalar(0.5j)", "scalar(-2)"]
+    # phases that print like a grid phase (names keep 3 significant digits) but differ
+    out += ["Rz(0.3004)", "Rx(0.2996)", "CRz(0.3004)", "CU1(0.2996)", "CRx(0.3004)", "Rz(1.2504)", "Rz(0.3)", "CRz(0.3)"]
     return out
 
 
@@ -37,6 +39,7 @@ def circuit_sig(quick):
                               "Bra(1)", "Bra(1, 0)", "Bra(0)", "scalar(0.5j)")]
     for r in ("Rx", "Rz", "CRz", "CRx", "CU1"):
         sig += [("e", "%s(%r)" % (r, p)) for p in ph]
+    sig += [("e", "Rz(0.3004)"), ("e", "CRz(0.2996)")]
     return sig
 
 
